@@ -180,6 +180,7 @@ where
             }
             Err(e) => {
                 buf.push_str("<!>");
+                *position = Position::NextChild;
                 throw_error::throw(e);
             }
         }
@@ -205,6 +206,7 @@ where
             ),
             Err(e) => {
                 buf.push_sync("<!>");
+                *position = Position::NextChild;
                 throw_error::throw(e);
             }
         }
